@@ -300,6 +300,7 @@ pub fn run(tier: &str) -> i32 {
     let mut progs = struct_space(true, true, true, false);
     progs.extend(io_host_space());
     progs.extend(multi_var_space());
+    progs.extend(lookalike_space());
     // member / element types written through `alias` declarations
     {
         let n0 = progs.len();
